@@ -35,12 +35,14 @@ def derivative(poly: PolyLike, *diffvars: Union[ndpoly, str, int]) -> ndpoly:
 
     """
     poly = poly_ref = numpoly.aspolynomial(poly)
+    argnames = poly.names
 
     for diffvar in diffvars:
+        if isinstance(diffvar, (int, numpy.integer)):
+            # a number is a position among the indeterminants of the argument
+            diffvar = argnames[diffvar]
         if isinstance(diffvar, str):
             idx = poly.names.index(diffvar)
-        elif isinstance(diffvar, int):
-            idx = diffvar
         else:
             diffvar = numpoly.aspolynomial(diffvar)
             # an element of an indeterminate array may carry all-zero terms of
